@@ -59,7 +59,8 @@ func lastDataOps(ops []Op, prefix, k int) [][]int {
 // enumerate lists every crash state of a history's log:
 //
 //	(i)   every prefix of the log,
-//	(ii)  the next write torn at every byte offset,
+//	(ii)  the next write torn at every byte offset (quick tier: header writes every byte
+//	      below 128, then every 8th),
 //	(iii) the next (appending) write with its size on disk but only the first t bytes of data,
 //	      the rest zero, for every t (quick tier: every t < 128, then every 4th),
 //	(iv)  every non-suffix subset of the last k<=3 writes lost (nothing is ever fsync'ed).
@@ -72,6 +73,11 @@ func enumerate(hist int, ops []Op, everyByte bool) []StateDesc {
 		switch op.Kind {
 		case "append":
 			for t := 1; t < len(op.Data); t++ {
+				// quick tier: a header torn beyond its first 128 bytes behaves like any other
+				// incomplete header (the file cannot be parsed): every 8th byte there
+				if !everyByte && op.What == "init" && t >= 128 && t%8 != 0 {
+					continue
+				}
 				out = append(out, StateDesc{Hist: hist, Prefix: i, Kind: "torn", T: t})
 			}
 			for t := 0; t < len(op.Data); t++ {
